@@ -44,11 +44,15 @@ def check_col(prog: Program, res: Result) -> None:
            f"{gs.module.relpath}:{allocs[0].lineno}", sample={"shape": short(shape, 80) if shape is not None else None})
     rows_ok = isinstance(shape, ast.Tuple) and len(shape.elts) == 2 and norm(shape.elts[0]).startswith("len(")
     res.ob("C10-col", rows_ok, gs.qualname, "one row per current detection", "rows of the score matrix are not the current detections", gs.where)
-    stores = [st for st in walk_function(gs.node) if isinstance(st, ast.Assign) and isinstance(st.targets[0], ast.Subscript)
-              and mat in astq.names_in(st.targets[0]) and astq.attr_base(st.targets[0]) == mat]
+    stores = []
+    for st in walk_function(gs.node):
+        if isinstance(st, ast.Assign) and isinstance(st.targets[0], ast.Subscript):
+            # the stored-into object, seen through row views:  row = scores[i]; row[j] = v  is  scores[i][j] = v
+            tx = ast.Subscript(value=astq.expand_at(gs.node, st.targets[0].value, st, keep=[mat]), slice=st.targets[0].slice, ctx=ast.Load())
+            if mat in astq.names_in(tx) and astq.attr_base(tx) == mat:
+                stores.append((st, tx))
     res.ob("C10-col", len(stores) >= 1, gs.qualname, "scores are stored", "no store into the score matrix", gs.where)
-    for st in stores:
-        t = st.targets[0]
+    for st, t in stores:
         idx = []
         cur = t
         while isinstance(cur, ast.Subscript):
